@@ -6,7 +6,7 @@ import ssl
 import typing
 
 from .._backends.base import SOCKET_OPTION, AsyncNetworkBackend
-from .._exceptions import ProxyError
+from .._exceptions import ConnectionNotAvailable, ProxyError
 from .._models import (
     URL,
     Origin,
@@ -285,9 +285,16 @@ class AsyncTunnelHTTPConnection(AsyncConnectionInterface):
                     headers=connect_headers,
                     extensions=request.extensions,
                 )
-                connect_response = await self._connection.handle_async_request(
-                    connect_request
-                )
+                try:
+                    connect_response = await self._connection.handle_async_request(
+                        connect_request
+                    )
+                except ConnectionNotAvailable:
+                    # The connection to the proxy has been used by an earlier
+                    # attempt that was given up. Close it, so that the tunnel is
+                    # dropped from the pool, rather than offered again.
+                    await self._connection.aclose()
+                    raise
 
                 if connect_response.status < 200 or connect_response.status > 299:
                     reason_bytes = connect_response.extensions.get("reason_phrase", b"")
